@@ -103,7 +103,28 @@ def check(ctx: Ctx) -> None:
             ctx.note(f"new identifier use site {q} (running={flags}) — not in the reviewed table")
     for q in EXPECTED:
         if q not in found:
-            raise AnalysisError(f"R16.2: reviewed identifier use site {q} vanished")
+            if q not in model.funcs:
+                raise AnalysisError(f"R16.2: reviewed identifier use site {q} vanished")
+            fi = model.funcs[q]
+            # a helper (depth <= 2) may obtain the identifiers on its behalf
+            via, seen, frontier = None, {q}, [fi]
+            for _ in range(2):
+                nxt = []
+                for f in frontier:
+                    for c in calls_in(f.node, into_functions=True):
+                        cq = model.resolve_call(f, c)
+                        if cq and cq in model.funcs and cq not in seen:
+                            seen.add(cq)
+                            nxt.append(model.funcs[cq])
+                            if any(isinstance(x.func, ast.Attribute) and x.func.attr == "generate_element_identifiers" for x in calls_in(model.funcs[cq].node, into_functions=True)) \
+                                    and not cq.endswith("generate_element_identifiers"):
+                                via = cq
+                frontier = nxt
+            if via:
+                raise AnalysisError(f"R16.2: {q} now obtains identifiers through {via}: re-review the running flags")
+            ctx.instance("R16.1", f"{q.split(':')[1]}: identifier source")
+            ctx.violation("R16.1", f"{q}:identifier-source", fi.module, fi.node,
+                          f"{q} no longer takes its numbering from generate_element_identifiers (neither directly nor through a helper): names/identifiers can differ from the circuit's own")
     # the element-level defaults: Connection/Container.to_sympy(identifiers=None) → running=False is covered above;
     # diagrams default running=False
     for mod, fn in (("pyimpspec.circuit.diagrams.circuitikz", "to_circuitikz"), ("pyimpspec.circuit.diagrams.schemdraw", "to_drawing")):
@@ -115,22 +136,40 @@ def check(ctx: Ctx) -> None:
             ctx.ok()
         else:
             ctx.violation("R16.2", f"{fn}:default-running", mod, fi.node, f"{fn}: the default numbering of diagram labels must be the display numbering (running=False)")
-    # no private numbering: enumerate(...) indices must not be formatted into names next to a symbol
+    # no private numbering: enumerate(...) indices over the circuit's elements must not be formatted into names next to a symbol
+    from ..prov import assignments
     for mname, mod in ctx.repo.modules.items():
         if not (mname.startswith("pyimpspec.circuit") or mname.startswith("pyimpspec.analysis")) or mname == BASE:
             continue
         for lp in [n for n in walk_ordered(mod.tree, into_functions=True) if isinstance(n, (ast.For, ast.comprehension))]:
             it = lp.iter
-            if isinstance(it, ast.Call) and dotted(it.func) == "enumerate" and it.args and "get_elements" in norm(it.args[0]):
-                tgt = lp.target
-                idx = tgt.elts[0].id if isinstance(tgt, ast.Tuple) and isinstance(tgt.elts[0], ast.Name) else None
-                scope = parent(lp) if isinstance(lp, ast.comprehension) else lp
-                for js in [n for n in walk_ordered(scope) if isinstance(n, ast.JoinedStr)]:
-                    sh = fshape(js) or []
-                    if idx and any(p == "{" + idx + "}" or p.startswith("{" + idx + " ") for p in sh) and any("_" in p for p in sh if not p.startswith("{")):
-                        ctx.instance("R16.1", f"{mname}:{lp.lineno if hasattr(lp, 'lineno') else '?'} private numbering")
-                        ctx.violation("R16.1", f"{mname}:private-numbering", mname, js,
-                                      f"{mname} numbers elements with its own enumerate index in {norm(js)}: not the circuit's identifiers")
+            if not (isinstance(it, ast.Call) and dotted(it.func) == "enumerate" and it.args):
+                continue
+            src = norm(it.args[0])
+            fn = enclosing(lp, (ast.FunctionDef, ast.AsyncFunctionDef))
+            if isinstance(it.args[0], ast.Name) and fn is not None:
+                src = " ".join(norm(a[0].value) for a in assignments(fn, it.args[0].id) if a[2] == "assign" and getattr(a[0], "value", None) is not None)
+            if "get_elements" not in src and "_get_elements_recursive" not in src:
+                continue
+            tgt = lp.target
+            idx = tgt.elts[0].id if isinstance(tgt, ast.Tuple) and isinstance(tgt.elts[0], ast.Name) else None
+            scope = parent(lp) if isinstance(lp, ast.comprehension) else lp
+            if not idx:
+                continue
+            tainted = {idx}
+            for _ in range(3):
+                for a in [n for n in walk_ordered(scope) if isinstance(n, (ast.Assign, ast.AnnAssign)) and n.value is not None]:
+                    if any(isinstance(x, ast.Name) and x.id in tainted for x in ast.walk(a.value)):
+                        t = a.targets[0] if isinstance(a, ast.Assign) else a.target
+                        if isinstance(t, ast.Name):
+                            tainted.add(t.id)
+            for js in [n for n in walk_ordered(scope) if isinstance(n, ast.JoinedStr)]:
+                sh = fshape(js) or []
+                used = {x.id for p in js.values if isinstance(p, ast.FormattedValue) for x in ast.walk(p.value) if isinstance(x, ast.Name)}
+                if used & tainted and any("_" in p for p in sh if not p.startswith("{")):
+                    ctx.instance("R16.1", f"{mname}:{getattr(lp, 'lineno', '?')} private numbering")
+                    ctx.violation("R16.1", f"{mname}:private-numbering", mname, js,
+                                  f"{mname} numbers elements with its own enumerate index in {norm(js)}: not the circuit's identifiers")
 
     # ---------------- R16.3 -----------------------------------------------------------
     shapes = identifier_source_rule(ctx, model, "R16.3")
@@ -276,20 +315,128 @@ def _rest_of_r163(ctx: Ctx, model, shapes) -> None:
         ctx.ok()
     else:
         ctx.violation("R16.3", "to_parameters_dataframe:lookup", FIT, tp.node, "to_parameters_dataframe must look parameters up under get_element_name(element, identifiers=external_identifiers)")
-    # diagrams
-    for mod, fn in (("pyimpspec.circuit.diagrams.circuitikz", "to_circuitikz"), ("pyimpspec.circuit.diagrams.schemdraw", "to_drawing")):
+    diagram_label_rule(ctx, model, "R16.3")
+    label_validation_rule(ctx, model, "R16.3")
+
+
+DIAGRAMS = (("pyimpspec.circuit.diagrams.circuitikz", "to_circuitikz"), ("pyimpspec.circuit.diagrams.schemdraw", "to_drawing"))
+
+
+def fparts(node: ast.AST):
+    """Like fshape but unambiguous: list of ('c', text) / ('p', expr)."""
+    if isinstance(node, ast.JoinedStr):
+        return [("c", str(v.value)) if isinstance(v, ast.Constant) else ("p", norm(v.value)) for v in node.values]
+    if isinstance(node, ast.BinOp) and isinstance(node.op, ast.Add):
+        a, b = fparts(node.left), fparts(node.right)
+        return a + b if a is not None and b is not None else None
+    if isinstance(node, ast.Constant) and isinstance(node.value, str):
+        return [("c", node.value)]
+    return None
+
+
+def good_lead(sh) -> bool:
+    return sh[0] == ("c", "$") and sh[1][0] == "p"
+
+
+def _prev_binding(stmt: ast.stmt, name: str):
+    """Nearest assignment to `name` among the statements preceding `stmt` in its own block (straight-line predecessor)."""
+    from ..cfg import block_of
+    p, fld, blk = block_of(stmt)
+    if not blk:
+        return None
+    idx = [i for i, x in enumerate(blk) if x is stmt][0]
+    for prev in reversed(blk[:idx]):
+        if isinstance(prev, (ast.Assign, ast.AnnAssign)) and prev.value is not None:
+            tgt = prev.targets[0] if isinstance(prev, ast.Assign) else prev.target
+            if norm(tgt) == name:
+                return prev
+        elif any(isinstance(n, ast.Name) and n.id == name and isinstance(n.ctx, ast.Store) for n in ast.walk(prev)):
+            return prev  # bound inside a compound statement: not a straight-line predecessor
+    return None
+
+
+def diagram_label_rule(ctx: Ctx, model, rid: str) -> None:
+    """A component's default label in both diagram back ends is <symbol>_{\\rm <label or identifier>} where
+    symbol = X.get_symbol(), the subscript is X.get_label() or str(M[X]) for the same element X, unmodified, and
+    M is the map returned by self.generate_element_identifiers(running=running)."""
+    from ..cfg import stmt_of
+    for mod, fn in DIAGRAMS:
         fi = model.fi(mod, fn)
-        t = norm(fi.node)
-        ctx.instance("R16.3", f"{fn}: labels from get_symbol() and label-or-identifier")
-        ok = "identifiers[" in t and ("get_label()" in t) and "get_symbol()" in t
-        # label or str(identifiers[x])
-        ok = ok and any(isinstance(n, ast.BoolOp) and isinstance(n.op, ast.Or) and "get_label()" in norm(n.values[0]) and "identifiers[" in norm(n.values[1])
-                        for n in walk_ordered(fi.node, into_functions=True))
-        if ok:
+        ctx.instance(rid, f"{fn}: default component label is <symbol>_<label or identifier of that element> from the circuit's own identifier map")
+        maps = [n for n in walk_ordered(fi.node, into_functions=True) if isinstance(n, (ast.Assign, ast.AnnAssign)) and n.value is not None
+                and isinstance(n.value, ast.Call) and isinstance(n.value.func, ast.Attribute) and n.value.func.attr == "generate_element_identifiers"]
+        if len(maps) != 1 or norm(maps[0].value.func.value) != "self":
+            ctx.violation(rid, f"{fn}:identifier-map", mod, fi.node,
+                          f"{fn} does not take its numbering from self.generate_element_identifiers(...): diagram labels are not the names the circuit gives its elements")
+            continue
+        M = norm(maps[0].targets[0] if isinstance(maps[0], ast.Assign) else maps[0].target)
+        others = [n for n in walk_ordered(fi.node, into_functions=True) if isinstance(n, ast.Name) and n.id == M and isinstance(n.ctx, ast.Store) and stmt_of(n) is not maps[0]]
+        fmts = []
+        for n in walk_ordered(fi.node, into_functions=True):
+            if isinstance(n, (ast.JoinedStr, ast.BinOp)) and not isinstance(parent(n), (ast.BinOp, ast.JoinedStr, ast.FormattedValue)):
+                sh = fparts(n)
+                if sh and any("\\rm" in t for k, t in sh if k == "c"):
+                    fmts.append((n, sh))
+        if len(fmts) != 1 or others:
+            ctx.violation(rid, f"{fn}:label-format", mod, fi.node,
+                          f"{fn}: expected exactly one default label format <symbol>_{{\\rm <subscript>}} built from the identifier map {M} (found {len(fmts)}; map rebound {len(others)} times)")
+            continue
+        node, sh = fmts[0]
+        ph = [t for k, t in sh if k == "p"]
+        consts = "".join(t for k, t in sh if k == "c").replace("$", "")
+        st = stmt_of(node)
+        good = len(ph) == 2 and consts.replace(" ", "") == "_{\\rm}" and sh[0][0] == "p" or (good_lead(sh) and len(ph) == 2 and consts.replace(" ", "") == "_{\\rm}")
+        why = f"label format {sh}"
+        if good:
+            sym_b, sub_b = _prev_binding(st, ph[0]), _prev_binding(st, ph[1])
+            good = sym_b is not None and sub_b is not None and isinstance(sym_b, (ast.Assign, ast.AnnAssign)) and isinstance(sub_b, (ast.Assign, ast.AnnAssign))
+            why = "symbol/subscript are not bound by the statements directly before the label"
+        if good:
+            sv, lv = sym_b.value, sub_b.value
+            good = isinstance(sv, ast.Call) and isinstance(sv.func, ast.Attribute) and sv.func.attr == "get_symbol" and not sv.args
+            X = norm(sv.func.value) if good else "?"
+            want = f"{X}.get_label() or str({M}[{X}])"
+            good = good and norm(lv) == want
+            why = f"subscript is {norm(lv)}, symbol is {norm(sv)}; expected {want}"
+        if good:
             ctx.ok()
         else:
-            ctx.violation("R16.3", f"{fn}:labels", mod, fi.node, f"{fn} must label components <symbol>_<label or identifier> using the circuit's identifiers")
+            ctx.violation(rid, f"{fn}:labels", mod, node,
+                          f"{fn} must label a component <symbol>_<label or identifier> of that very element, unmodified, using the circuit's identifier map ({why})")
 
+
+def label_validation_rule(ctx: Ctx, model, rid: str) -> None:
+    """The value stored by Element.set_label is the value the digits-only/ASCII refusals were evaluated on: a label
+    that is all digits would coincide with the running/per-type identifier of another element of the same type."""
+    sl = model.fi(BASE, "Element.set_label")
+    ctx.instance(rid, "Element.set_label: the stored label is the validated value (digits-only labels refused on what is stored)")
+    stores = [n for n in walk_ordered(sl.node) if isinstance(n, (ast.Assign, ast.AnnAssign)) and norm(n.targets[0] if isinstance(n, ast.Assign) else n.target) == "self._label"]
+    tests = []
+    for n in walk_ordered(sl.node):
+        if isinstance(n, ast.If) and any(isinstance(x, ast.Raise) for x in n.body):
+            for c in calls_in(n.test):
+                if isinstance(c.func, ast.Attribute) and c.func.attr == "isdigit" and not c.args:
+                    tests.append((n, norm(c.func.value)))
+                elif norm(c.func) == "all" and c.args and isinstance(c.args[0], ast.Call) and norm(c.args[0].func) == "map" and len(c.args[0].args) == 2 \
+                        and norm(c.args[0].args[0]) == "str.isdigit":
+                    tests.append((n, norm(c.args[0].args[1])))
+    if len(stores) != 1:
+        raise AnalysisError("Element.set_label: expected exactly one store to self._label")
+    if not tests:
+        ctx.violation(rid, "set_label:digits-refusal", BASE, sl.node, "Element.set_label no longer refuses labels that consist only of digits: such a label coincides with another element's identifier")
+        return
+    test_if, X = tests[0]
+    stored = norm(stores[0].value)
+    # no rebinding of X between the refusal and the store
+    from ..cfg import stmt_of
+    seq = list(walk_ordered(sl.node))
+    i0, i1 = seq.index(test_if), seq.index(stores[0])
+    rebound = [n for n in seq[i0:i1] if isinstance(n, ast.Name) and n.id == X and isinstance(n.ctx, ast.Store)]
+    if stored == X and i0 < i1 and not rebound:
+        ctx.ok()
+    else:
+        ctx.violation(rid, "set_label:stored-is-validated", BASE, stores[0],
+                      f"Element.set_label validates {X} but stores {stored}: the stored label can be all digits (e.g. '1 ' → '1') and coincide with the identifier of an unlabelled element")
 
 
 def _numbering(ctx: Ctx, model, found, shapes) -> None:
